@@ -60,6 +60,48 @@ def l2_rk_poly(run, rng, quick):
     return done
 
 
+def l2_taylor_poly(run, rng, quick):
+    """one fixed step of the Taylor propagate-and-compress scheme at full bond dimension equals the Taylor polynomial
+    sum_k (-i dt H)^k / k! psi of the requested order, for orders below, at and above the default (more than five summands)."""
+    import math
+    from renormalizer.model import Model, Op, basis as ba
+    from renormalizer.mps import Mps, Mpo
+    from renormalizer.utils import EvolveConfig, EvolveMethod, CompressConfig, CompressCriteria
+    ns = 4
+    basis = [ba.BasisHalfSpin(i) for i in range(ns)]
+    terms = [Op("X X", [i, i + 1], 0.7 + 0.1 * i) for i in range(ns - 1)] + [Op("Z", i, 0.4 - 0.2 * i) for i in range(ns)] + [Op("Y", 1, 0.3)]
+    model = Model(basis, terms)
+    mpo = Mpo(model)
+    H = mpo.todense()
+    done = 0
+    for order in (1, 2, 3, 4, 5, 6, 7, 9, 11, 12):
+        np.random.seed(int(rng.integers(2 ** 31)))
+        mps = Mps.random(model, 0, 4, 1.0).to_complex()
+        mps.compress_config = CompressConfig(CompressCriteria.fixed, max_bonddim=16)
+        mps.evolve_config = EvolveConfig(EvolveMethod.prop_and_compress, adaptive=False, taylor_order=order)
+        psi0 = mps.todense().ravel() * mps.coeff
+        dt = float(rng.uniform(0.2, 0.6))
+        try:
+            new = mps.evolve(mpo, dt, normalize=False)
+        except Exception as e:  # noqa
+            run.violation(f"taylor-step:order{order}:raises:{type(e).__name__}", dict(order=order, dt=dt, error=repr(e)[:200]))
+            continue
+        psi = new.todense().ravel() * new.coeff
+        ref = np.zeros_like(psi0)
+        term = psi0.copy()
+        for k in range(order + 1):
+            if k > 0:
+                term = (-1j * dt) * (H @ term)
+            ref = ref + term / math.factorial(k)
+        done += 1
+        dev = float(np.linalg.norm(psi - ref) / np.linalg.norm(ref))
+        if dev > 1e-10:
+            run.violation(f"taylor-step:order{'<=4' if order <= 4 else '>=5'}:not-the-taylor-polynomial",
+                          dict(order=order, dt=dt, relative_deviation=dev, psi0=dict(re=psi0.real.tolist(), im=psi0.imag.tolist()),
+                               what="one fixed Taylor P&C step at full bond dimension differs from sum_k (-i dt H)^k/k! psi of the requested order"))
+    return done
+
+
 def l2_controller(run, rng, quick):
     """replay of the adaptive step-size controller: the (dt tried, accepted/final) sequence of the REAL
     adaptive general-RK run, reconstructed from its debug log, against the Lean state machine fed
@@ -215,9 +257,54 @@ def l2_chain_sweep_events(run, rng, quick):
     return len(reqs)
 
 
+def large_step_ps(run, rng, quick):
+    """TDVP-PS with complete bond dimensions is exact for ANY step: one very large real-time step (spectral width * dt / 2 of
+    55-80 per half sweep, so that the local Krylov problems need more than 50 Lanczos vectors) against the dense propagator."""
+    import scipy.linalg
+    from renormalizer.model import Model, Op, basis as ba
+    from renormalizer.mps import Mps, Mpo
+    from renormalizer.utils import EvolveConfig, EvolveMethod, CompressConfig, CompressCriteria
+    done = 0
+    for _ in range(1 if quick else 6):
+        n = int(rng.integers(7, 9))
+        basis = [ba.BasisHalfSpin(i) for i in range(n)]
+        terms = [Op("sigma_x sigma_x", [i, i + 1], float(rng.uniform(0.5, 1.0))) for i in range(n - 1)] + \
+                [Op("sigma_z sigma_z", [i, i + 2], float(rng.uniform(0.2, 0.6))) for i in range(n - 2)] + \
+                [Op("sigma_z", i, float(rng.uniform(-1, 1))) for i in range(n)]
+        model = Model(basis, terms)
+        mpo = Mpo(model)
+        h = np.asarray(mpo.todense())
+        w = np.linalg.eigvalsh(h)
+        np.random.seed(int(rng.integers(2 ** 31)))
+        mps = Mps.random(model, 0, 2 ** (n // 2), percent=1.0).to_complex()
+        mps.compress_config = CompressConfig(CompressCriteria.fixed, max_bonddim=2 ** (n // 2))
+        for method in (EvolveMethod.tdvp_ps,) + (() if quick else (EvolveMethod.tdvp_ps2,)):
+            mps.evolve_config = EvolveConfig(method)
+            dt = float(rng.uniform(110, 160)) * 2 / float(w[-1] - w[0])     # each half sweep propagates over dt/2
+            psi0 = np.asarray(mps.todense()).ravel() * complex(mps.coeff)
+            try:
+                out = mps.evolve(mpo, dt)
+            except Exception as e:  # noqa
+                run.violation(f"large-step:{method.name}:raises:{type(e).__name__}", dict(nsite=n, dt=dt, error=repr(e)[:200]))
+                continue
+            got = np.asarray(out.todense()).ravel() * complex(out.coeff)
+            ref = scipy.linalg.expm(-1j * dt * h) @ psi0
+            err = float(np.linalg.norm(got - ref) / np.linalg.norm(ref))
+            done += 1
+            run.count(f"large-step:{method.name}:n={n}")
+            # far outside the moderate range of ||A|| dt the Krylov kernel is specified for (C18): the un-reorthogonalised Lanczos
+            # recurrence of the pinned routine reaches 1e-3 here; only gross errors (a wrong propagator) are flagged
+            if err > 2e-2:
+                run.violation(f"large-step:{method.name}:full-bond:vs-expm",
+                              dict(nsite=n, dt=dt, spectral_width=float(w[-1] - w[0]), rel_err=err,
+                                   terms=[(t.symbol, list(t.dofs), float(t.factor)) for t in terms],
+                                   what="projector splitting at complete bond dimension must reproduce exp(-iHt) for any step size"))
+    return done
+
+
 if __name__ == "__main__":
     common.main_wrapper(lambda: generic_check.run_check(
-        "C09", "other", ["RenoVerif/Props/C09.lean", "RenoVerif/Props/C12.lean"], [l2_rk_poly, l2_controller, l2_chain_sweep_events],
+        "C09", "other", ["RenoVerif/Props/C09.lean", "RenoVerif/Props/C12.lean"], [l2_rk_poly, l2_taylor_poly, l2_controller, l2_chain_sweep_events, large_step_ps],
         ["error orders of TDVP/P&C schemes, Lanczos/RK45 local solvers, adaptive step-size termination are numerical (measured by slopes)",
          "projector-splitting norm/energy conservation is measured, its algebraic reason (unitary local steps + C04 pushes) is not assembled into one Lean theorem"],
         "ten tableaux x one fixed step of the real general RK scheme at full bond dimension vs the model polynomial",
